@@ -22,6 +22,9 @@ JudgeFile(e) ==
             /\ Report("C13:exact_attacks", Pairs(e.att) = v[3])
             /\ Report("C13:ids_follow_declaration", e.ids_ok)
   /\ (e.res # "panic" /\ v[1] = "reject") => Report("C13:illformed_rejected", e.res = "err")
+  \* undecodable comment: rejected, or read as exactly the declared framework -- never as some other framework
+  /\ (e.res = "ok" /\ v[1] = "accept_or_reject") =>
+       /\ Report("C13:not_read_as_another_framework", e.args = [i \in 1..Cardinality(v[2]) |-> i] /\ Pairs(e.att) = v[3])
 
 ArgStrVerdict(e) ==
   IF e.fmt = "iccma" THEN IccmaArgVerdict(e.kind)
